@@ -147,7 +147,12 @@ impl Property for C14 {
         let flat = flatten(&case.app);
         let router = match panic::catch(std::panic::AssertUnwindSafe(|| VerifRouter::new(build_into(&case.app, None, Ohkami::with(make_cors(&case.policy), ()))))) {
             Ok(r) => r,
+            Err(pi) if is_refusal(&pi.msg) && !pi.msg.contains("Can't merge Ohkamis") => {
+                obs.fail(format!("valid-configuration-refused:{}", crate::core::panic::stem(&pi.msg).chars().take(50).collect::<String>()), format!("the application was refused at build time: {}", pi.msg));
+                return;
+            }
             Err(pi) if is_refusal(&pi.msg) => {
+                obs.label_dyn(&format!("refusal:{}", crate::core::panic::stem(&pi.msg).chars().take(60).collect::<String>()));
                 obs.rejected_config = true;
                 return;
             }
